@@ -20,5 +20,6 @@ INVARIANT LawResizeSpan
 INVARIANT ImplAdjust
 INVARIANT LawAdjustNone
 INVARIANT LawStepOutcome
+INVARIANT LawWFillOffs
 PROPERTY Terminates
 CHECK_DEADLOCK FALSE
